@@ -1,0 +1,40 @@
+//go:build verif
+
+// Contracts for the deductive verification in /verif (comment-only).
+package keeper
+
+// collect(bits, voters, voterRecords, proposerKey, n): the key list handed to the BLS verifier —
+// the proposer's vote key followed by the vote keys of the voters at the marked positions < n, ascending.
+//@ smt (define-fun-rec collect ((bits Bytes) (vs Slc_Bytes) (vm (Array Bytes T_relayer_types_Voter)) (pk Bytes) (n Int)) Slc_Bytes
+//@       (ite (<= n 0)
+//@            (mk_Slc_Bytes (store zarr!0 0 pk) 0 1)
+//@            (ite (bitat bits (- n 1))
+//@                 (mk_Slc_Bytes (store (arr_Slc_Bytes (collect bits vs vm pk (- n 1)))
+//@                                      (+ (off_Slc_Bytes (collect bits vs vm pk (- n 1))) (len_Slc_Bytes (collect bits vs vm pk (- n 1))))
+//@                                      (T_relayer_types_Voter.VoteKey (select vm (select (arr_Slc_Bytes vs) (+ (off_Slc_Bytes vs) (- n 1))))))
+//@                               (off_Slc_Bytes (collect bits vs vm pk (- n 1)))
+//@                               (+ (len_Slc_Bytes (collect bits vs vm pk (- n 1))) 1))
+//@                 (collect bits vs vm pk (- n 1)))))
+
+//@ func (Keeper).VerifyProposal
+//@ property C01 C02
+//@ requires group_bound: len(st.relayer.Relayer.Voters) < 4294967296
+//@ requires no_callbacks: len(verifyFn) == 0
+//@ ensures proposer: err == nil ==> req.GetProposer() == old(st.relayer.Relayer.Proposer)
+//@ ensures seq_epoch: err == nil ==> req.GetVote().GetSequence() == old(st.relayer.Sequence) && req.GetVote().GetEpoch() == old(st.relayer.Relayer.Epoch) && result == old(st.relayer.Sequence)
+//@ ensures quorum: err == nil ==> bitcount(req.GetVote().GetVoters()) + 1 >= (2*(len(old(st.relayer.Relayer.Voters))+1) + 2) / 3
+//@ ensures marks_are_keys: err == nil ==> countTo(req.GetVote().GetVoters(), len(old(st.relayer.Relayer.Voters))) == bitcount(req.GetVote().GetVoters())
+//@ ensures members_exist: err == nil ==> has(st.relayer.Voters, old(st.relayer.Relayer.Proposer)) && forall(p, 0, len(old(st.relayer.Relayer.Voters)), bitat(req.GetVote().GetVoters(), p) ==> has(st.relayer.Voters, old(st.relayer.Relayer.Voters)[p]))
+//@ ensures bls: err == nil ==> blsFastAggVerify(
+//@           collect(req.GetVote().GetVoters(), old(st.relayer.Relayer.Voters), mapval(st.relayer.Voters), st.relayer.Voters[old(st.relayer.Relayer.Proposer)].VoteKey, len(old(st.relayer.Relayer.Voters))),
+//@           votesigndoc(chainid(), old(st.relayer.Sequence), old(st.relayer.Relayer.Epoch), req.MethodName(), old(st.relayer.Relayer.Proposer), req.VoteSigDoc()),
+//@           req.GetVote().GetSignature())
+//@ ensures accepted_flag: err == nil ==> st.relayer.Relayer.ProposerAccepted && st.relayer.Relayer.Proposer == old(st.relayer.Relayer.Proposer) && st.relayer.Relayer.Epoch == old(st.relayer.Relayer.Epoch) && st.relayer.Relayer.Voters == old(st.relayer.Relayer.Voters) && st.relayer.Relayer.LastElected == old(st.relayer.Relayer.LastElected)
+//@ ensures reject_changes_nothing: err != nil ==> unchanged(st.relayer.Relayer)
+//@ loop 0 invariant bounds: 0 <= i && i <= len(voters)
+//@ loop 0 invariant keys: pubkeys == collect(req.GetVote().GetVoters(), voters, mapval(st.relayer.Voters), proposer.VoteKey, i)
+//@ loop 0 invariant count: len(pubkeys) == 1 + countTo(req.GetVote().GetVoters(), i)
+//@ loop 0 invariant members: forall(p, 0, i, bitat(req.GetVote().GetVoters(), p) ==> has(st.relayer.Voters, voters[p]))
+//@ loop 0 decreases len(voters) - i
+//@ loop 1 invariant true
+//@ modifies st.relayer.Relayer
